@@ -144,7 +144,7 @@ def gen_apps(tier):
         params = PARAMS[app]
         return {"app": app, "param": params[p % len(params)], "index": index, "k": k, "c": c, "route": route, "kwargs": kw}
     return st.builds(mk, st.sampled_from(sorted(PARAMS)), st.integers(0, 1000),
-                     st.one_of(st.sampled_from([0, 1, H - 1]), st.integers(0, H - 1)), S.scalars(), S.chain_codes(),
+                     S.normal_indexes(), S.scalars(), S.chain_codes(),
                      st.sampled_from(["direct", "direct", "from_xprv", "wallet", "key33", "paper-tprv"]), st.booleans())
 
 
